@@ -566,3 +566,74 @@ package frugal
 //@   ensures callret("lib.FContext.Timeout", 0, 0) > 0 ==> callarg("context.WithTimeout", 0, 1) == callret("lib.FContext.Timeout", 0, 0)
 //@   ensures callret("lib.FContext.Timeout", 0, 0) <= 0 ==> ncalls("context.WithTimeout") == 0
 //@   modifies *
+
+// ---- transport monitor (C15a) ----------------------------------------------------------------------------
+
+//@ immutable lib.BaseFTransportMonitor.MaxReopenAttempts, lib.BaseFTransportMonitor.InitialWait, lib.BaseFTransportMonitor.MaxWait
+//@ immutable lib.monitorRunner.monitor, lib.monitorRunner.transport, lib.monitorRunner.closedChannel
+
+//@ func lib.BaseFTransportMonitor.OnClosedUncleanly
+//@   ensures result0 == (m.MaxReopenAttempts > 0) && result1 == m.InitialWait
+
+// Another attempt is allowed only while fewer than MaxReopenAttempts have been made, and the next wait
+// never exceeds MaxWait (doubling may wrap around: the result is then negative, which Sleep ignores).
+//@ func lib.BaseFTransportMonitor.OnReopenFailed
+//@   ensures result0 == (prevAttempts < m.MaxReopenAttempts)
+//@   ensures result1 <= m.MaxWait || (!result0 && result1 == 0)
+//@   ensures !result0 ==> result1 == 0
+
+//@ iface lib.FTransportMonitor.OnReopenFailed
+//@   same_as lib.BaseFTransportMonitor.OnReopenFailed
+//@ iface lib.FTransportMonitor.OnClosedUncleanly
+//@   same_as lib.BaseFTransportMonitor.OnClosedUncleanly
+//@ iface lib.FTransportMonitor.OnReopenSucceeded
+//@ iface lib.FTransportMonitor.OnClosedCleanly
+
+//@ pred mon(r) = cast(r.monitor, "lib.BaseFTransportMonitor")
+
+// At most max(MaxReopenAttempts, 1) Open calls, every sleep at most MaxWait, success reported exactly
+// when an Open succeeded.
+//@ func lib.monitorRunner.attemptReopen
+//@   requires InitialWait <= mon(r).MaxWait && mon(r).MaxWait >= 0
+//@   ensures opened(r.transport) - old(opened(r.transport)) <= max(mon(r).MaxReopenAttempts, 1)
+//@   ensures result == (ncalls("lib.FTransportMonitor.OnReopenSucceeded") == 1)
+//@   modifies *
+//@   loop 0 invariant r == r0 && wait <= mon(r).MaxWait && mon(r).MaxWait >= 0
+//@   loop 0 invariant opened(r.transport) == old(opened(r.transport)) + prevAttempts
+//@   loop 0 invariant prevAttempts <= max(mon(r).MaxReopenAttempts, 1) && (reopen ==> prevAttempts == 0 || prevAttempts < mon(r).MaxReopenAttempts)
+//@   loop 0 invariant lastcallarg("time.Sleep", 0) <= mon(r).MaxWait
+//@   loop 0 decreases max(mon(r).MaxReopenAttempts, 1) - prevAttempts + ite(reopen, 1, 0)
+
+// A monitor configured with InitialWait > MaxWait contradicts itself; excluded.
+//@ func lib.monitorRunner.run
+//@   requires mon(r).InitialWait <= mon(r).MaxWait && mon(r).MaxWait >= 0
+//@   modifies *
+
+//@ func lib.monitorRunner.handleUncleanClose
+//@   requires mon(r).InitialWait <= mon(r).MaxWait && mon(r).MaxWait >= 0
+//@   ensures opened(r.transport) - old(opened(r.transport)) <= mon(r).MaxReopenAttempts
+//@   modifies *
+
+// ---- adapter transport state machine (C15b) ---------------------------------------------------------------
+// While open, the session's close-signal channel is empty with capacity 1 (so close() can always post its
+// token without blocking) and the close-cause channel is empty, open and has capacity 1 (so exactly one
+// cause can be published and the channel closed exactly once).
+
+//@ guard lib.fAdapterTransport.mu protects isOpen, closeChan, closeSignal
+//@   invariant self.isOpen ==> self.closeSignal != nil && clen(self.closeSignal) == 0 && ccap(self.closeSignal) == 1
+//@   invariant self.isOpen ==> self.closeChan != nil && clen(self.closeChan) == 0 && ccap(self.closeChan) == 1 && !cclosed(self.closeChan)
+//@ immutable lib.fAdapterTransport.transport, lib.fAdapterTransport.registry
+
+//@ func lib.fAdapterTransport.Open
+//@   ensures result == nil ==> ncalls("lib.fAdapterTransport.readLoop") == 0
+//@   modifies *
+
+//@ func lib.fAdapterTransport.close
+//@   check-close
+//@   modifies *
+
+//@ func lib.fAdapterTransport.Close
+//@   modifies *
+// Only close() posts to the close signal, and only with the transport mutex held.
+//@ container lib.fAdapterTransport.closeSignal sendlocked
+//@ container lib.fAdapterTransport.closeChan sendlocked
